@@ -136,6 +136,23 @@ def run(ctx):
                         for (_bb, callee, args, res) in p.events:
                             if callee.endswith("IndexMut<I>>::index_mut") or callee.endswith("Index<I>>::index"):
                                 stores.append((callee.split("::")[-1], N(args[1])))
+                    # ... one pixel per iteration: the byte offset is advanced by exactly 4 (constant self-updates of
+                    # usize places inside the arm), and nothing in the arm steps backwards
+                    steps = []
+                    for bi in sorted(reg):
+                        for s_ in fb.blocks[bi]["s"]:
+                            rv_ = s_.get("rv") or {}
+                            if s_.get("k") == "assign" and rv_.get("k") == "bin" and rv_["op"].replace("WithOverflow", "") in ("Add", "Sub", "Mul") and not (s_.get("sp") or {}).get("mx"):
+                                kb_ = (rv_["b"].get("k") if isinstance(rv_["b"], dict) else None) or {}
+                                src_ = rv_["a"].get("c") or rv_["a"].get("m") or {}
+                                if "bits" in kb_ and str(src_.get("ty", "")) == "usize" and not src_.get("p"):
+                                    # stored back into the same local (directly or through the checked pair)?
+                                    tl_ = s_["lhs"]["l"]
+                                    back = tl_ == src_.get("l") or any(s2.get("k") == "assign" and s2["lhs"].get("l") == src_.get("l") and not s2["lhs"].get("p") and ((s2.get("rv") or {}).get("a") or {}).get("m", ((s2.get("rv") or {}).get("a") or {}).get("c", {})).get("l") == tl_ for b2 in sorted(reg) for s2 in fb.blocks[b2]["s"])
+                                    if back:
+                                        steps.append((rv_["op"].replace("WithOverflow", ""), int(str(kb_["bits"]), 0)))
+                    if steps:
+                        ctx.ob("DISPATCH", "B8G8R8A8|stride", all(st_ == ("Add", 4) for st_ in steps), f"B8G8R8A8 arm advances its byte offset by {steps}; one BGRA pixel is 4 bytes", fb.file, fb.line)
                     ctx.ob("DISPATCH", "B8G8R8A8|lanes", lanes == {0: 2, 1: 1, 2: 0, 3: 3} or _bgra_lanes(fb, reg) == {0: 2, 1: 1, 2: 0, 3: 3}, f"B8G8R8A8 stores dst lanes from src lanes {lanes or _bgra_lanes(fb, reg)}; BGRA -> RGBA is {{0: 2, 1: 1, 2: 0, 3: 3}}", fb.file, fb.line)
         # texture type and dimensions
         ok_t = False
